@@ -52,6 +52,9 @@ type Injected struct {
 	Path   string `json:"path,omitempty"`
 	Data   HexB   `json:"data,omitempty"`
 	Height int64  `json:"height,omitempty"`
+
+	done     bool
+	whenNote string
 }
 
 // Block is the concrete input of one block plus the per-engine schedule markers.
